@@ -13,37 +13,37 @@ namespace Yld
 /-! ### Unfolding lemmas for the Python semantics -/
 
 section unfold
-variable (q : Q) (u : Term → Term → Gen) (env : Env) (k : K) (σ : PyFlags) (w : World)
+variable (q : Q) (u : Term → Term → Gen) (k : K) (σ : PyLoc) (w : World)
 
-theorem pyStmts_nil : pyStmts q u env [] k σ w = (σ, w, .norm) := by rw [pyStmts]
-theorem pyStmts_nil' : pyStmts q u env [] k σ w = (σ, w, .norm) := by rw [pyStmts]
+theorem pyStmts_nil : pyStmts q u [] k σ w = (σ, w, .norm) := by rw [pyStmts]
+theorem pyStmts_nil' : pyStmts q u [] k σ w = (σ, w, .norm) := by rw [pyStmts]
 
 theorem pyStmts_cons (s : PStmt) (ss : List PStmt) :
-    pyStmts q u env (s :: ss) k σ w = seqPy (fun σ' w' => pyStmts q u env ss k σ' w') (pyStmt q u env s k σ w) := by
+    pyStmts q u (s :: ss) k σ w = seqPy (fun σ' w' => pyStmts q u ss k σ' w') (pyStmt q u s k σ w) := by
   rw [pyStmts]
 
 theorem pyStmts_append (a b : List PStmt) :
-    pyStmts q u env (a ++ b) k σ w = seqPy (fun σ' w' => pyStmts q u env b k σ' w') (pyStmts q u env a k σ w) := by
+    pyStmts q u (a ++ b) k σ w = seqPy (fun σ' w' => pyStmts q u b k σ' w') (pyStmts q u a k σ w) := by
   induction a generalizing σ w with
   | nil => simp [pyStmts_nil]
   | cons s ss ih =>
     rw [List.cons_append, pyStmts_cons, pyStmts_cons]
-    rcases pyStmt q u env s k σ w with ⟨σ', w', c⟩
+    rcases pyStmt q u s k σ w with ⟨σ', w', c⟩
     cases c <;> simp [ih]
 
-theorem py_assign_fls (x : String) : pyStmt q u env (.assign x .fls) k σ w = (σ.set x false, w, .norm) := by rw [pyStmt]
-theorem py_assign_tru (x : String) : pyStmt q u env (.assign x .tru) k σ w = (σ.set x true, w, .norm) := by rw [pyStmt]
+theorem py_assign_fls (x : String) : pyStmt q u (.assign x .fls) k σ w = ((σ.1, σ.2.set x false), w, .norm) := by rw [pyStmt]; rfl
+theorem py_assign_tru (x : String) : pyStmt q u (.assign x .tru) k σ w = ((σ.1, σ.2.set x true), w, .norm) := by rw [pyStmt]; rfl
 theorem py_if_name (x : String) (body : List PStmt) :
-    pyStmt q u env (.ifS (.name x) body) k σ w = ifFlag (σ.get x) (pyStmts q u env body k σ w) σ w := by rw [pyStmt]
-theorem py_yield (e : PExpr) : pyStmt q u env (.yieldS e) k σ w = yieldPy σ (k w) := by rw [pyStmt]
-theorem py_return : pyStmt q u env .returnS k σ w = (σ, w, .ret) := by rw [pyStmt]
-theorem py_break : pyStmt q u env .breakS k σ w = (σ, w, .brk) := by rw [pyStmt]
-theorem py_pass : pyStmt q u env .passS k σ w = (σ, w, .norm) := by rw [pyStmt]
+    pyStmt q u (.ifS (.name x) body) k σ w = ifFlag (σ.2.get x) (pyStmts q u body k σ w) σ w := by rw [pyStmt]
+theorem py_yield (e : PExpr) : pyStmt q u (.yieldS e) k σ w = yieldPy σ (k w) := by rw [pyStmt]
+theorem py_return : pyStmt q u .returnS k σ w = (σ, w, .ret) := by rw [pyStmt]
+theorem py_break : pyStmt q u .breakS k σ w = (σ, w, .brk) := by rw [pyStmt]
+theorem py_pass : pyStmt q u .passS k σ w = (σ, w, .norm) := by rw [pyStmt]
 theorem py_for_one (v : String) (e : PExpr) (body : List PStmt) :
-    pyStmt q u env (.forIn v (.list [e]) body) k σ w = catchBreak (pyStmts q u env body k σ w) := by rw [pyStmt]
-theorem py_for_gen (v f : String) (args : List PExpr) (g : Gen) (h : loopGen q u env f args = some g) (body : List PStmt) :
-    pyStmt q u env (.forIn v (.call f args) body) k σ w =
-      loopEnd (g (fun w1 => bodyAnswer (pyStmts q u env body k w1.pop.1 w1.pop.2)) (w.push σ)) := by
+    pyStmt q u (.forIn v (.list [e]) body) k σ w = catchBreak (pyStmts q u body k σ w) := by rw [pyStmt]
+theorem py_for_gen (v f : String) (args : List PExpr) (g : Gen) (h : loopGen q u σ.1 f args = some g) (body : List PStmt) :
+    pyStmt q u (.forIn v (.call f args) body) k σ w =
+      loopEnd (g (fun w1 => bodyAnswer (pyStmts q u body k w1.pop.1 w1.pop.2)) (w.push σ)) := by
   rw [pyStmt]; simp [h]
 end unfold
 
@@ -163,22 +163,23 @@ def BrkState (Γ : List Nat) (σ : PyFlags) (l : Nat) : Prop :=
 def Passes (s : Sig) : Prop := (∃ t, s = .up t) ∨ s = .oof ∨ (∃ e, s = .exn e) ∨ s = .stop
 
 /-- How the end of a Python statement list corresponds to the end of the IR's run. -/
-inductive SimC (Γ : List Nat) (σ : PyFlags) : Ctl → Option Sig → Prop
-  | norm : Inv Γ σ → SimC Γ σ .norm none
-  | brk (l : Nat) : l ∈ Γ → BrkState Γ σ l → SimC Γ σ .brk (some (.brk l))
-  | ret : SimC Γ σ .ret (some .ret)
-  | sig (s : Sig) : Passes s → SimC Γ σ (.sig s) (some s)
+inductive SimC (Γ : List Nat) (env : Env) (σ : PyLoc) : Ctl → Option Sig → Prop
+  | norm : σ.1 = env → Inv Γ σ.2 → SimC Γ env σ .norm none
+  | brk (l : Nat) : σ.1 = env → l ∈ Γ → BrkState Γ σ.2 l → SimC Γ env σ .brk (some (.brk l))
+  | ret : SimC Γ env σ .ret (some .ret)
+  | sig (s : Sig) : Passes s → SimC Γ env σ (.sig s) (some s)
 
-def SimB (Γ : List Nat) (p : PyR) (r : R) : Prop := p.2.1 = r.1 ∧ SimC Γ p.1 p.2.2 r.2
+/-- The variables that hold terms are not assigned by the statements of a body (`env` stays). -/
+def SimB (Γ : List Nat) (env : Env) (p : PyR) (r : R) : Prop := p.2.1 = r.1 ∧ SimC Γ env p.1 p.2.2 r.2
 
 /-! ### The callee of a loop cannot see the caller's local variables -/
 
-inductive OptF (ν : PyFlags → Prop) (ρ : PyFlags → Sig → Sig → Prop) (σ : PyFlags) : Option Sig → Option Sig → Prop
+inductive OptF (ν : PyLoc → Prop) (ρ : PyLoc → Sig → Sig → Prop) (σ : PyLoc) : Option Sig → Option Sig → Prop
   | none : ν σ → OptF ν ρ σ none none
   | some (a b : Sig) : ρ σ a b → OptF ν ρ σ (some a) (some b)
 
 /-- Two runs that differ by one extra frame of flags on top of `World.py`. -/
-def RelF (ν : PyFlags → Prop) (ρ : PyFlags → Sig → Sig → Prop) (r1 r2 : R) : Prop :=
+def RelF (ν : PyLoc → Prop) (ρ : PyLoc → Sig → Sig → Prop) (r1 r2 : R) : Prop :=
   ∃ σ', r1.1 = r2.1.push σ' ∧ OptF ν ρ σ' r1.2 r2.2
 
 def OwnSig (s : Sig) : Prop := s = .oof ∨ (∃ e, s = .exn e) ∨ s = .stop
@@ -188,15 +189,15 @@ def OwnSig (s : Sig) : Prop := s = .oof ∨ (∃ e, s = .exn e) ∨ s = .stop
     to the next as the consumer left it, and passes the consumer's reasons on as they are. For a
     Python generator this is lexical scoping of local variables. -/
 def FrameLocal (g : Gen) : Prop :=
-  ∀ (ν : PyFlags → Prop) (ρ : PyFlags → Sig → Sig → Prop), (∀ σ s, OwnSig s → ρ σ s s) →
+  ∀ (ν : PyLoc → Prop) (ρ : PyLoc → Sig → Sig → Prop), (∀ σ s, OwnSig s → ρ σ s s) →
     ∀ K1 K2 : K, (∀ w σ, ν σ → RelF ν ρ (K1 (w.push σ)) (K2 w)) →
       ∀ w σ, ν σ → RelF ν ρ (g K1 (w.push σ)) (g K2 w)
 
 /-- What the loop body tells the generator vs. what the IR's body tells it. -/
-inductive LoopRel (Γ : List Nat) (σ : PyFlags) : Sig → Sig → Prop
-  | brk (l : Nat) : l ∈ Γ → BrkState Γ σ l → LoopRel Γ σ pyBreak (.brk l)
-  | ret : LoopRel Γ σ .ret .ret
-  | pass (s : Sig) : Passes s → LoopRel Γ σ s s
+inductive LoopRel (Γ : List Nat) (env : Env) (σ : PyLoc) : Sig → Sig → Prop
+  | brk (l : Nat) : σ.1 = env → l ∈ Γ → BrkState Γ σ.2 l → LoopRel Γ env σ pyBreak (.brk l)
+  | ret : LoopRel Γ env σ .ret .ret
+  | pass (s : Sig) : Passes s → LoopRel Γ env σ s s
 
 theorem Passes.ne_pyBreak {s : Sig} (h : Passes s) : s ≠ pyBreak := by
   rcases h with ⟨t, rfl⟩ | rfl | ⟨e, rfl⟩ | rfl <;> simp [pyBreak]
@@ -204,49 +205,51 @@ theorem Passes.ne_ret {s : Sig} (h : Passes s) : s ≠ .ret := by
   rcases h with ⟨t, rfl⟩ | rfl | ⟨e, rfl⟩ | rfl <;> simp
 
 section loops
-variable (q : Q) (u : Term → Term → Gen) (env : Env)
+variable (q : Q) (u : Term → Term → Gen)
 
-theorem pyStmts_breakCode (k : K) (σ : PyFlags) (w : World) :
-    pyStmts q u env breakCode k σ w = ifFlag (σ.get "doBreak") (σ, w, .brk) σ w := by
+theorem pyStmts_breakCode (k : K) (σ : PyLoc) (w : World) :
+    pyStmts q u breakCode k σ w = ifFlag (σ.2.get "doBreak") (σ, w, .brk) σ w := by
   simp only [breakCode, pyStmts_cons, pyStmts_nil, py_if_name, py_break]
-  cases h : σ.get "doBreak" with
+  cases h : σ.2.get "doBreak" with
   | none => simp [ifFlag]
   | some b => cases b <;> simp
 
 /-- A `for` loop over a generator, followed by `if doBreak: break`. -/
-theorem loop_correct (Γ : List Nat) (g : Gen) (hg : FrameLocal g) (body : List PStmt) (k K2 : K)
-    (hbody : ∀ σ w, Inv Γ σ → SimB Γ (pyStmts q u env body k σ w) (K2 w))
-    (σ : PyFlags) (w : World) (hσ : Inv Γ σ) :
-    SimB Γ (seqPy (fun σ' w' => pyStmts q u env breakCode k σ' w')
-              (loopEnd (g (fun w1 => bodyAnswer (pyStmts q u env body k w1.pop.1 w1.pop.2)) (w.push σ))))
+theorem loop_correct (Γ : List Nat) (env : Env) (g : Gen) (hg : FrameLocal g) (body : List PStmt) (k K2 : K)
+    (hbody : ∀ σ w, σ.1 = env → Inv Γ σ.2 → SimB Γ env (pyStmts q u body k σ w) (K2 w))
+    (σ : PyLoc) (w : World) (he : σ.1 = env) (hσ : Inv Γ σ.2) :
+    SimB Γ env (seqPy (fun σ' w' => pyStmts q u breakCode k σ' w')
+              (loopEnd (g (fun w1 => bodyAnswer (pyStmts q u body k w1.pop.1 w1.pop.2)) (w.push σ))))
       (g K2 w) := by
-  have hK : ∀ w σ, Inv Γ σ →
-      RelF (Inv Γ) (LoopRel Γ) ((fun w1 => bodyAnswer (pyStmts q u env body k w1.pop.1 w1.pop.2)) (w.push σ)) (K2 w) := by
+  have hK : ∀ w σ, (σ.1 = env ∧ Inv Γ σ.2) →
+      RelF (fun σ => σ.1 = env ∧ Inv Γ σ.2) (LoopRel Γ env)
+        ((fun w1 => bodyAnswer (pyStmts q u body k w1.pop.1 w1.pop.2)) (w.push σ)) (K2 w) := by
     intro w σ hσ
-    have hb := hbody σ w hσ
+    have hb := hbody σ w hσ.1 hσ.2
     simp only [World.pop_push]
-    generalize pyStmts q u env body k σ w = p at hb ⊢
+    generalize pyStmts q u body k σ w = p at hb ⊢
     generalize K2 w = r at hb ⊢
     obtain ⟨σ', w', c⟩ := p
     obtain ⟨w2, s2⟩ := r
     obtain ⟨hw, hc⟩ := hb
     change w' = w2 at hw
-    change SimC Γ σ' c s2 at hc
+    change SimC Γ env σ' c s2 at hc
     subst hw
     cases hc with
-    | norm hi => exact ⟨σ', rfl, .none hi⟩
-    | brk l hl hs' => exact ⟨σ', rfl, .some _ _ (.brk l hl hs')⟩
+    | norm he hi => exact ⟨σ', rfl, .none ⟨he, hi⟩⟩
+    | brk l he hl hs' => exact ⟨σ', rfl, .some _ _ (.brk l he hl hs')⟩
     | ret => exact ⟨σ', rfl, .some _ _ .ret⟩
     | sig s hp' => exact ⟨σ', rfl, .some _ _ (.pass s hp')⟩
-  have hρ : ∀ σ s, OwnSig s → LoopRel Γ σ s s := by
+  have hρ : ∀ σ s, OwnSig s → LoopRel Γ env σ s s := by
     intro σ s hs
     refine .pass s ?_
     rcases hs with h | h | h
     · exact Or.inr (Or.inl h)
     · exact Or.inr (Or.inr (Or.inl h))
     · exact Or.inr (Or.inr (Or.inr h))
-  obtain ⟨σ', hw, ho⟩ := hg (Inv Γ) (LoopRel Γ) hρ (fun w1 => bodyAnswer (pyStmts q u env body k w1.pop.1 w1.pop.2)) K2 hK w σ hσ
-  generalize g (fun w1 => bodyAnswer (pyStmts q u env body k w1.pop.1 w1.pop.2)) (w.push σ) = r1 at hw ho
+  obtain ⟨σ', hw, ho⟩ := hg (fun σ => σ.1 = env ∧ Inv Γ σ.2) (LoopRel Γ env) hρ
+    (fun w1 => bodyAnswer (pyStmts q u body k w1.pop.1 w1.pop.2)) K2 hK w σ ⟨he, hσ⟩
+  generalize g (fun w1 => bodyAnswer (pyStmts q u body k w1.pop.1 w1.pop.2)) (w.push σ) = r1 at hw ho
   generalize g K2 w = r2 at hw ho
   obtain ⟨w1, s1⟩ := r1
   obtain ⟨w2, s2⟩ := r2
@@ -254,13 +257,13 @@ theorem loop_correct (Γ : List Nat) (g : Gen) (hg : FrameLocal g) (body : List 
   subst hw
   cases ho with
   | none hi =>
-    simp only [loopEnd, World.pop_push, seqPy_norm, pyStmts_breakCode, hi.1, ifFlag_false]
-    exact ⟨rfl, .norm hi⟩
+    simp only [loopEnd, World.pop_push, seqPy_norm, pyStmts_breakCode, hi.2.1, ifFlag_false]
+    exact ⟨rfl, .norm hi.1 hi.2⟩
   | some a b hab =>
     cases hab with
-    | brk l hl hs =>
+    | brk l he' hl hs =>
       simp only [loopEnd, World.pop_push, if_true, seqPy_norm, pyStmts_breakCode, hs.1, ifFlag_true]
-      exact ⟨rfl, .brk l hl hs⟩
+      exact ⟨rfl, .brk l he' hl hs⟩
     | ret =>
       have : (Sig.ret = pyBreak) = False := by simp [pyBreak]
       simp only [loopEnd, World.pop_push, this, if_false, if_true, seqPy_ret]
@@ -320,17 +323,17 @@ theorem stmtOfCode_foreach_cons (lvl : Nat) (name : String) (args : List STerm) 
       [.forIn ("l" ++ toString (lvl + 1)) (.call "query" [.str name, .list (args.map exprOfSTerm)]) (stmtsOfCode (lvl + 1) (c :: cs))] ++ breakCode := by
   simp [stmtOfCode]
 
-theorem sim_seq {Γ : List Nat} {p : PyR} {r : R} (h : SimB Γ p r) {f : PyFlags → World → PyR} {f2 : World → R}
-    (hf : ∀ σ w, Inv Γ σ → SimB Γ (f σ w) (f2 w)) : SimB Γ (seqPy f p) (andThenR f2 r) := by
+theorem sim_seq {Γ : List Nat} {env : Env} {p : PyR} {r : R} (h : SimB Γ env p r) {f : PyLoc → World → PyR} {f2 : World → R}
+    (hf : ∀ σ w, σ.1 = env → Inv Γ σ.2 → SimB Γ env (f σ w) (f2 w)) : SimB Γ env (seqPy f p) (andThenR f2 r) := by
   obtain ⟨σ, w, c⟩ := p
   obtain ⟨w2, s2⟩ := r
   obtain ⟨hw, hc⟩ := h
   change w = w2 at hw
-  change SimC Γ σ c s2 at hc
+  change SimC Γ env σ c s2 at hc
   subst hw
   cases hc with
-  | norm hi => simpa using hf σ w hi
-  | brk l hl hs => exact ⟨rfl, .brk l hl hs⟩
+  | norm he hi => simpa using hf σ w he hi
+  | brk l he hl hs => exact ⟨rfl, .brk l he hl hs⟩
   | ret => exact ⟨rfl, .ret⟩
   | sig s hp => exact ⟨rfl, .sig s hp⟩
 
@@ -338,26 +341,27 @@ theorem Inv.tail {l : Nat} {Γ : List Nat} {σ : PyFlags} (h : Inv (l :: Γ) σ)
   ⟨h.1, fun l' hl' => h.2 l' (List.mem_cons_of_mem _ hl')⟩
 
 section main
-variable (q : Q) (u : Term → Term → Gen) (env : Env)
+variable (q : Q) (u : Term → Term → Gen)
 
-theorem loopGen_query (name : String) (args : List STerm) (h : ∀ a ∈ args, STerm.noNil a) :
+theorem loopGen_query (env : Env) (name : String) (args : List STerm) (h : ∀ a ∈ args, STerm.noNil a) :
     loopGen q u env "query" [.str name, .list (args.map exprOfSTerm)] = some (q name (args.map (STerm.eval env))) := by
   simp [loopGen, evalExprs_exprOfSTerm env args h]
 
 /-- **Theorem B (bodies).** The statements printed for well-formed IR simulate the IR: same calls
     to the predicates with the same consumer in the same worlds, same outcome; a structured exit
     `brk l` of the IR is a Python `break` travelling with `doBreak` and `cutIf<l>` raised and the
-    flags of the other enclosing blocks down; between statements all of them are down. -/
+    flags of the other enclosing blocks down; between statements all of them are down; the
+    variables that hold terms are not touched. -/
 theorem py_code_correct (hq : ∀ n a, FrameLocal (q n a)) :
-    (∀ c, ∀ Γ lvl k σ w, WFC Γ c → External k → Inv Γ σ →
-        SimB Γ (pyStmts q u env (stmtOfCode lvl c) k σ w) (exec q env c k w)) ∧
-    (∀ cs, ∀ Γ lvl k σ w, WFL Γ cs → External k → Inv Γ σ →
-        SimB Γ (pyStmts q u env (stmtsOfCode lvl cs) k σ w) (execList q env cs k w)) := by
-  have key : ∀ c, ∀ Γ lvl k σ w, WFC Γ c → External k → Inv Γ σ →
-      SimB Γ (pyStmts q u env (stmtOfCode lvl c) k σ w) (exec q env c k w) := by
+    (∀ c, ∀ Γ lvl k (σ : PyLoc) w, WFC Γ c → External k → Inv Γ σ.2 →
+        SimB Γ σ.1 (pyStmts q u (stmtOfCode lvl c) k σ w) (exec q σ.1 c k w)) ∧
+    (∀ cs, ∀ Γ lvl k (σ : PyLoc) w, WFL Γ cs → External k → Inv Γ σ.2 →
+        SimB Γ σ.1 (pyStmts q u (stmtsOfCode lvl cs) k σ w) (execList q σ.1 cs k w)) := by
+  have key : ∀ c, ∀ Γ lvl k (σ : PyLoc) w, WFC Γ c → External k → Inv Γ σ.2 →
+      SimB Γ σ.1 (pyStmts q u (stmtOfCode lvl c) k σ w) (exec q σ.1 c k w) := by
     intro c
-    induction c using Code.rec (motive_2 := fun cs => ∀ Γ lvl k σ w, WFL Γ cs → External k → Inv Γ σ →
-        SimB Γ (pyStmts q u env (stmtsOfCode lvl cs) k σ w) (execList q env cs k w)) with
+    induction c using Code.rec (motive_2 := fun cs => ∀ Γ lvl k (σ : PyLoc) w, WFL Γ cs → External k → Inv Γ σ.2 →
+        SimB Γ σ.1 (pyStmts q u (stmtsOfCode lvl cs) k σ w) (execList q σ.1 cs k w)) with
     | yieldF =>
       intro Γ lvl k σ w _ hk hσ
       rw [stmtOfCode, exec_yieldF]
@@ -366,7 +370,7 @@ theorem py_code_correct (hq : ∀ n a, FrameLocal (q n a)) :
       generalize k w = r at hkw
       obtain ⟨w', s'⟩ := r
       rcases hkw with h | ⟨s, h⟩ <;> simp only at h <;> subst h
-      · exact ⟨rfl, .norm hσ⟩
+      · exact ⟨rfl, .norm rfl hσ⟩
       · exact ⟨rfl, .sig _ (Or.inl ⟨s, rfl⟩)⟩
     | yieldT =>
       intro Γ lvl k σ w _ hk hσ
@@ -376,7 +380,7 @@ theorem py_code_correct (hq : ∀ n a, FrameLocal (q n a)) :
       generalize k w = r at hkw
       obtain ⟨w', s'⟩ := r
       rcases hkw with h | ⟨s, h⟩ <;> simp only at h <;> subst h
-      · exact ⟨rfl, .norm hσ⟩
+      · exact ⟨rfl, .norm rfl hσ⟩
       · exact ⟨rfl, .sig _ (Or.inl ⟨s, rfl⟩)⟩
     | ret =>
       intro Γ lvl k σ w _ _ _
@@ -388,9 +392,10 @@ theorem py_code_correct (hq : ∀ n a, FrameLocal (q n a)) :
       rw [WFC_brk] at hwf
       rw [stmtOfCode, exec_brk]
       simp only [pyStmts_cons, py_assign_tru, py_break, seqPy_norm, seqPy_brk]
-      refine ⟨rfl, .brk l hwf ⟨by simp, ?_, ?_⟩⟩
-      · rw [PyFlags.get_set_other _ _ _ _ (labelName_ne_doBreak l)]; simp
+      refine ⟨rfl, .brk l rfl hwf ⟨by simp, ?_, ?_⟩⟩
+      · simp only; rw [PyFlags.get_set_other _ _ _ _ (labelName_ne_doBreak l)]; simp
       · intro l' hl' hne
+        simp only
         rw [PyFlags.get_set_other _ _ _ _ (labelName_ne_doBreak l'),
           PyFlags.get_set_other _ _ _ _ (fun h => hne (labelName_inj h))]
         exact hσ.2 l' hl'
@@ -398,18 +403,19 @@ theorem py_code_correct (hq : ∀ n a, FrameLocal (q n a)) :
       intro Γ lvl k σ w hwf hk hσ
       rw [WFC_block] at hwf
       obtain ⟨hl, hwf⟩ := hwf
-      have hσ1 : Inv (l :: Γ) (σ.set (labelName l) false) := by
+      have hσ1 : Inv (l :: Γ) (σ.2.set (labelName l) false) := by
         refine ⟨?_, ?_⟩
         · rw [PyFlags.get_set_other _ _ _ _ (labelName_ne_doBreak l).symm]; exact hσ.1
         · intro l' hl'
           rcases List.mem_cons.mp hl' with rfl | h
           · simp
-          · rw [PyFlags.get_set_other _ _ _ _ (fun e => hl (by have := labelName_inj e; subst this; exact h))]; exact hσ.2 l' h
+          · rw [PyFlags.get_set_other _ _ _ _ (fun e => hl (by have := labelName_inj e; subst this; exact h))]
+            exact hσ.2 l' h
       rw [exec_block]
-      have hb := ih (l :: Γ) lvl k (σ.set (labelName l) false) w hwf hk hσ1
+      have hb := ih (l :: Γ) lvl k (σ.1, σ.2.set (labelName l) false) w hwf hk hσ1
       -- what follows the block's loop: `if cutIf_l: doBreak = False`, `if doBreak: break`
-      have tail : ∀ (p : PyR) (r : R), SimB (l :: Γ) p r →
-          SimB Γ (seqPy (fun σ' w' => pyStmts q u env
+      have tail : ∀ (p : PyR) (r : R), SimB (l :: Γ) σ.1 p r →
+          SimB Γ σ.1 (seqPy (fun σ' w' => pyStmts q u
                   ([.ifS (.name (labelName l)) [.assign "doBreak" .fls]] ++ breakCode) k σ' w') (catchBreak p))
             (catchBrk l r) := by
         intro p r hpr
@@ -417,29 +423,29 @@ theorem py_code_correct (hq : ∀ n a, FrameLocal (q n a)) :
         obtain ⟨w2, s2⟩ := r
         obtain ⟨hw, hc⟩ := hpr
         change w' = w2 at hw
-        change SimC (l :: Γ) σ' c s2 at hc
+        change SimC (l :: Γ) σ.1 σ' c s2 at hc
         subst hw
         cases hc with
-        | norm hi =>
-          have h1 : σ'.get (labelName l) = some false := hi.2 l (by simp)
+        | norm he hi =>
+          have h1 : σ'.2.get (labelName l) = some false := hi.2 l (by simp)
           simp only [catchBreak_norm, seqPy_norm, List.cons_append, List.nil_append, pyStmts_cons, py_if_name, h1,
             ifFlag_false, pyStmts_breakCode, hi.1, catchBrk_none]
-          exact ⟨rfl, .norm hi.tail⟩
-        | brk l' hl' hs =>
+          exact ⟨rfl, .norm he hi.tail⟩
+        | brk l' he hl' hs =>
           by_cases e : l' = l
           · subst e
-            have hne : ("doBreak" : String) ≠ labelName l' := (labelName_ne_doBreak l').symm
             simp only [catchBreak_brk, seqPy_norm, List.cons_append, List.nil_append, pyStmts_cons, py_if_name, hs.2.1,
               ifFlag_true, py_assign_fls, pyStmts_nil', pyStmts_breakCode, PyFlags.get_set_same, ifFlag_false,
               catchBrk_brk, if_true]
-            refine ⟨rfl, .norm ⟨by simp, ?_⟩⟩
+            refine ⟨rfl, .norm he ⟨by simp, ?_⟩⟩
             intro l'' hl''
+            simp only
             rw [PyFlags.get_set_other _ _ _ _ (labelName_ne_doBreak l'')]
             exact hs.2.2 l'' (List.mem_cons_of_mem _ hl'') (fun e => hl (e ▸ hl''))
-          · have h1 : σ'.get (labelName l) = some false := hs.2.2 l (by simp) (fun h => e h.symm)
+          · have h1 : σ'.2.get (labelName l) = some false := hs.2.2 l (by simp) (fun h => e h.symm)
             simp only [catchBreak_brk, seqPy_norm, List.cons_append, List.nil_append, pyStmts_cons, py_if_name, h1,
               ifFlag_false, pyStmts_breakCode, hs.1, ifFlag_true, catchBrk_brk, if_neg e]
-            refine ⟨rfl, .brk l' ?_ ⟨hs.1, hs.2.1, ?_⟩⟩
+            refine ⟨rfl, .brk l' he ?_ ⟨hs.1, hs.2.1, ?_⟩⟩
             · rcases List.mem_cons.mp hl' with h | h
               · exact absurd h e
               · exact h
@@ -454,7 +460,7 @@ theorem py_code_correct (hq : ∀ n a, FrameLocal (q n a)) :
           exact ⟨rfl, .sig s hp⟩
       cases body with
       | nil =>
-        have := tail (σ.set (labelName l) false, w, .norm) (w, none) ⟨rfl, .norm hσ1⟩
+        have := tail ((σ.1, σ.2.set (labelName l) false), w, .norm) (w, none) ⟨rfl, .norm rfl hσ1⟩
         rw [stmtOfCode_block_nil]
         simpa [execList_nil, pyStmts_cons, py_assign_fls] using this
       | cons c cs =>
@@ -469,38 +475,43 @@ theorem py_code_correct (hq : ∀ n a, FrameLocal (q n a)) :
       cases body with
       | nil =>
         rw [stmtOfCode_foreach_nil, List.cons_append, List.nil_append, pyStmts_cons,
-          py_for_gen q u env k σ w _ _ _ _ (loopGen_query q u env name args hargs)]
-        apply loop_correct q u env Γ _ (hq name _) _ k (fun w' => execList q env [] k w') _ σ w hσ
-        intro σ1 w1 hσ1
+          py_for_gen q u k σ w _ _ _ _ (loopGen_query q u σ.1 name args hargs)]
+        apply loop_correct q u Γ σ.1 _ (hq name _) _ k (fun w' => execList q σ.1 [] k w') _ σ w rfl hσ
+        intro σ1 w1 he1 hσ1
         simp only [pyStmts_cons, py_pass, seqPy_norm, pyStmts_nil', execList_nil]
-        exact ⟨rfl, .norm hσ1⟩
+        exact ⟨rfl, .norm he1 hσ1⟩
       | cons c cs =>
         rw [stmtOfCode_foreach_cons, List.cons_append, List.nil_append, pyStmts_cons,
-          py_for_gen q u env k σ w _ _ _ _ (loopGen_query q u env name args hargs)]
-        apply loop_correct q u env Γ _ (hq name _) _ k (fun w' => execList q env (c :: cs) k w') _ σ w hσ
-        intro σ1 w1 hσ1
-        exact ih Γ (lvl + 1) k σ1 w1 hwf hk hσ1
+          py_for_gen q u k σ w _ _ _ _ (loopGen_query q u σ.1 name args hargs)]
+        apply loop_correct q u Γ σ.1 _ (hq name _) _ k (fun w' => execList q σ.1 (c :: cs) k w') _ σ w rfl hσ
+        intro σ1 w1 he1 hσ1
+        have := ih Γ (lvl + 1) k σ1 w1 hwf hk hσ1
+        rwa [he1] at this
     | nil =>
       rename_i Γ lvl k σ w _ _ hσ
       rw [stmtsOfCode_nil, pyStmts_nil', execList_nil]
-      exact ⟨rfl, .norm hσ⟩
+      exact ⟨rfl, .norm rfl hσ⟩
     | cons c cs ihc ihcs =>
       rename_i Γ lvl k σ w hwf hk hσ
       rw [WFL_cons] at hwf
       rw [stmtsOfCode_cons, pyStmts_append, execList_cons]
-      exact sim_seq (ihc Γ lvl k σ w hwf.1 hk hσ) (fun σ' w' hσ' => ihcs Γ lvl k σ' w' hwf.2 hk hσ')
+      exact sim_seq (ihc Γ lvl k σ w hwf.1 hk hσ) (fun σ' w' he' hσ' => by
+        have := ihcs Γ lvl k σ' w' hwf.2 hk hσ'
+        rwa [he'] at this)
   refine ⟨key, ?_⟩
   intro cs
   induction cs with
   | nil =>
     intro Γ lvl k σ w _ _ hσ
     rw [stmtsOfCode_nil, pyStmts_nil', execList_nil]
-    exact ⟨rfl, .norm hσ⟩
+    exact ⟨rfl, .norm rfl hσ⟩
   | cons c cs ih =>
     intro Γ lvl k σ w hwf hk hσ
     rw [WFL_cons] at hwf
     rw [stmtsOfCode_cons, pyStmts_append, execList_cons]
-    exact sim_seq (key c Γ lvl k σ w hwf.1 hk hσ) (fun σ' w' hσ' => ih Γ lvl k σ' w' hwf.2 hk hσ')
+    exact sim_seq (key c Γ lvl k σ w hwf.1 hk hσ) (fun σ' w' he' hσ' => by
+      have := ih Γ lvl k σ' w' hwf.2 hk hσ'
+      rwa [he'] at this)
 end main
 
 /-! ### What the compiler produces is well-formed -/
@@ -650,10 +661,10 @@ theorem BOK_nil_src : ∀ b, BOK [] b → Src b := by
     does: same worlds at each answer, same final world, same outcome, and all flags down when it
     falls through. -/
 theorem py_body_correct (q : Q) (u : Term → Term → Gen) (hq : ∀ n a, FrameLocal (q n a)) (hp : Parametric q)
-    (env : Env) (b : Body) (hb : BOK [] b) (n : Nat) (k : K) (hk : External k) (σ : PyFlags) (hσ : Inv [] σ) (w : World) :
-    SimB [] (pyStmts q u env (stmtsOfCode 0 (comp b [] n).1) k σ w) (solve q env 0 b k w) := by
+    (b : Body) (hb : BOK [] b) (n : Nat) (k : K) (hk : External k) (σ : PyLoc) (hσ : Inv [] σ.2) (w : World) :
+    SimB [] σ.1 (pyStmts q u (stmtsOfCode 0 (comp b [] n).1) k σ w) (solve q σ.1 0 b k w) := by
   have hwf := (comp_wf b [] n [] (by simp) hb (by simp)).1
-  have := (py_code_correct q u env hq).2 (comp b [] n).1 [] 0 k σ w hwf hk hσ
-  rwa [compile_body_correct q hp env b (BOK_nil_src b hb) n k hk w] at this
+  have := (py_code_correct q u hq).2 (comp b [] n).1 [] 0 k σ w hwf hk hσ
+  rwa [compile_body_correct q hp σ.1 b (BOK_nil_src b hb) n k hk w] at this
 
 end Yld
